@@ -549,11 +549,12 @@ Error:
         // Wind down the workers this call already started (the sink and the
         // filter start before the source): nothing else would ever tell them
         // to stop, and stop/abort/shutdown would wait for them for ever.
-        video->source.is_stopping = 1;
         video->filter.is_stopping = 1;
         video->sink.is_stopping = 1;
     }
-    acquire_stop(self_);
+    // abort, not stop: a source that did start may be asleep on a full ring
+    // and has to be woken by refusing writes
+    acquire_abort(self_);
     self->state = DeviceState_AwaitingConfiguration;
     return AcquireStatus_Error;
 }
